@@ -42,6 +42,9 @@ func randC02Flags(r *rand.Rand, info *gen.Info) ref.BalFlags {
 		case 0:
 			return segs[0]
 		case 1:
+			if len(segs) < 2 {
+				return "^" + segs[0] + "$"
+			}
 			return "^" + segs[0] + ":" + segs[1]
 		case 2:
 			return segs[len(segs)-1] + "$"
@@ -87,6 +90,7 @@ func (k *c02) RunCase(c *core.Ctx, i int) {
 	o.Assertions = r.Intn(3) == 0
 	o.SelfBook = r.Intn(5) == 0
 	o.EquityEquity = r.Intn(2) == 0
+	o.Depth1 = r.Intn(4) == 0
 	o.MaxDepth = 5
 	o.Prices = r.Intn(3) == 0
 	j, info := gen.Accepted(r, o)
